@@ -20,6 +20,39 @@ from harness.fw import Check, Driver, REPO, hexs
 from harness.props import c05
 
 
+# the hand-modelled functions (Model/LoadOrder.lean, readMap/decMapEntry/step of Model/DexFile.lean)
+PINS = [("androguard/core/dex/__init__.py", "MapList.__init__"), ("androguard/core/dex/__init__.py", "MapList.get_item_type"), ("androguard/core/dex/__init__.py", "MapItem.__init__"), ("androguard/core/dex/__init__.py", "MapItem.parse"),
+        ("androguard/core/dex/__init__.py", "MapItem.get_length"), ("androguard/core/dex/__init__.py", "ClassManager.add_type_item"), ("androguard/core/dex/__init__.py", "DEX._load"),
+        ("androguard/core/dex/dex_types.py", "TypeMapItem.determine_load_order"),
+        ("androguard/core/dex/dex_types.py", "TypeMapItem._get_dependencies")]
+
+VERSIONS = ["035", "036", "037", "038", "039", "040", "041", "042", "099"]
+
+
+def unknown_type_files(rng, big):
+    """(origin, bytes, model, index of the alien entry): files of every format version whose map has
+    an extra entry of a type code that no format version assigns (size 0/1, harmless offset), written
+    last — where a writer that sorts by offset would put a new data-section type"""
+    import copy
+    out = []
+    tiny = {"classes": [], "extra_fields": [], "extra_methods": [], "extra_strings": ["a"],
+            "build": {"leb_pad": 0, "shared_handlers": False, "version": "035", "map_order": None}}
+    bases = [("tiny", tiny), ("witness", M.WITNESS_KEY_COLLISION)]
+    for i in range(12 if big else 3):
+        bases.append(("random-u%d" % i, M.gen_model(rng)))
+    for name, base in bases:
+        for ver in VERSIONS:
+            if name.startswith("random") and ver not in ("039", "040", "041"):
+                continue
+            for t in (M.UNASSIGNED_MAP_TYPES if (big or name == "tiny") else M.UNASSIGNED_MAP_TYPES[:2]):
+                m = copy.deepcopy(base)
+                m["build"]["version"] = ver
+                m["build"]["extra_map"] = [[t, rng.choice([0, 1]), rng.choice([0, "map", 0x70]), -1]]
+                data = M.build(m)[0]
+                out.append(("%s:v%s:type%04x" % (name, ver, t), data, m, len(M.read_map(data)) - 1))
+    return out
+
+
 def _types_mod():
     spec = importlib.util.spec_from_file_location("_agverif_dex_types_c07", os.path.join(REPO, "androguard/core/dex/dex_types.py"))
     mod = importlib.util.module_from_spec(spec)
@@ -61,11 +94,15 @@ def full_view(data):
     return line + " X[" + "|".join(extra) + "]"
 
 
-def perms_for(ck, n, quick):
+def perms_for(ck, n, quick, alien=None):
+    """`alien`: index of an entry that must be tried at every position of the map"""
     if n <= 5 or (n <= 7 and not quick):
         return list(itertools.permutations(range(n)))
     k = (24 if n <= 7 else 12) if quick else 400
     out = [tuple(reversed(range(n)))]
+    if alien is not None:
+        others = [i for i in range(n) if i != alien]
+        out = [tuple(others[:k_] + [alien] + others[k_:]) for k_ in range(n)] + out
     base = list(range(n))
     for _ in range(k - 1):
         p = base[:]
@@ -75,14 +112,18 @@ def perms_for(ck, n, quick):
 
 
 def run(ck: Check):
+    ck.pins_changed(PINS)
+    big = (not ck.quick) or ck.escalated     # a hand-modelled function changed: thorough sizes in the quick tier too
     ck.run_gen("mapdeps")
     ck.prove(exes=["drv_C07", "drv_C05"])
     drv = Driver("drv_C07")
     drv5 = Driver("drv_C05")
     mod = _types_mod()
     rng = ck.rng
-    ck.rule = ("dexperm: generated DEX files (harness/dexmodel) and shipped DEX files, map entries permuted (all permutations "
-               "for small maps, seeded random ones otherwise), checksums re-fixed; distinct = (file, permutation); "
+    ck.rule = ("dexperm: generated DEX files (harness/dexmodel, format versions 035..041) and shipped DEX files, plus files of "
+               "versions 035..099 with an extra map entry of an unassigned type code tried at every position; map entries "
+               "permuted (all permutations for small maps, seeded random ones otherwise), checksums re-fixed; the outcome (parse "
+               "result or error class) must be the same for every order; distinct = (file, permutation); "
                "non-trivial = permutation other than the identity on a file with classes")
     # ---- T: kahn on the real table and on random tables
     reqs, real = [], []
@@ -128,14 +169,19 @@ def run(ck: Check):
     # ---- S + T: dexperm
     files = []
     files.append(("witness:key-collision", M.build(M.WITNESS_KEY_COLLISION)[0], M.WITNESS_KEY_COLLISION))
-    for i in range(160 if ck.quick else 3000):
-        model = M.gen_model(rng)
+    alien = {}
+    for origin, data, model, u in unknown_type_files(rng, big):
+        files.append((origin, data, model))
+        alien[origin] = u
+    for i in range(3000 if not ck.quick else (800 if ck.escalated else 160)):
+        model = M.gen_model(rng)          # format versions 035..041
         files.append(("random:%d" % i, M.build(model)[0], model))
     for name, data in c05.shipped_dex():
-        if len(data) <= (40000 if ck.quick else 3000000):
+        if len(data) <= (3000000 if not ck.quick else 40000):
             files.append((name, data, None))
     dist = {"files": 0, "parses": 0, "map_entries_min": 99, "map_entries_max": 0, "exhaustive_files": 0,
-            "files_with_annotations_or_static_values": 0}
+            "files_with_annotations_or_static_values": 0, "files_with_unassigned_map_type": len(alien),
+            "files_version_ge_040": 0, "outcome_error_files": 0}
     distinct = set()
     treqs, treal, tcase = [], [], []
     samples = []
@@ -151,7 +197,9 @@ def run(ck: Check):
         dist["map_entries_min"] = min(dist["map_entries_min"], n)
         dist["map_entries_max"] = max(dist["map_entries_max"], n)
         dist["files_with_annotations_or_static_values"] += any(t in (0x2005, 0x2006, 0x2004) for t in types)
-        perms = perms_for(ck, n, ck.quick)
+        perms = perms_for(ck, n, not big, alien.get(origin))
+        dist["files_version_ge_040"] += data[4:7] >= b"040"
+        dist["outcome_error_files"] += base.startswith("err")
         dist["exhaustive_files"] += len(perms) > 1 and len(perms) == len(set(perms)) and n <= 7 and len(perms) >= 120
         small = len(data) <= 20000
         for pi, p in enumerate(perms):
@@ -165,7 +213,9 @@ def run(ck: Check):
                 case = {"origin": origin, "perm": list(p), "map_types": types}
                 if model is not None:
                     case["model"] = model
-                ck.fail(case, "parse of the file with a permuted map list differs from the parse of the original", None, e, o)
+                case["version"] = data[4:7].decode("ascii", "replace")
+                ck.fail(case, "outcome (parse result or error class) for the file with a permuted map list differs from the "
+                              "outcome for the original order", None, e, o)
                 break
             if small and (pi < 3):
                 treqs.append("dex " + hexs(pdata))
